@@ -1,3 +1,4 @@
+import Ivy.Generated.Consts
 /-
 Model of /repo/src/iv_signal.c (labelled transition system at critical-section granularity).
 
@@ -40,8 +41,8 @@ Model of /repo/src/iv_signal.c (labelled transition system at critical-section g
 -/
 namespace Ivy.Signal
 
-/-- `_NSIG` of the C library the code is built with (glibc: 65). -/
-def NSIG : Nat := 65
+/-- `_NSIG` as iv_signal.c sees it (its own fallback `#define`, or the C library's: glibc 65); regenerated from the source on every run -/
+def NSIG : Nat := Ivy.Generated.SIG_NSIG
 
 inductive Out where
   | post (i : Nat)                 -- iv_event_raw_post(&is->ev)
